@@ -9,9 +9,14 @@ EdDSA   EDP <params…>                                  parameters = table, bas
         EDPK <bytes> / EDPKN <bytes> / EDPKNC <bytes>   PublicKey.SetBytes: `x y re-encoding` / consumed / strict
         EDSIG <bytes>                                   Signature.SetBytes: `n Rx Ry S re-encoding`
         EDSK <bytes> / EDSKN <bytes> / EDSKX <bytes>    PrivateKey.SetBytes: `x y re-encoding` / consumed / over-long buffer
+        EDPKL <bytes> / EDSKL <bytes>                   PublicKey / PrivateKey.SetBytes on a buffer longer than the object: `n x y re-encoding`
+        EDSGN <hash> <sk> <nonce> <msg> <oin> <oout>    PrivateKey.Sign then Verify under the key of <sk>: `signature-bytes verdict`; the model
+                                                        signs with the nonce on the line (Go derives the same one from randSrc and msg)
 ECDSA   ECP, ECV, ECVB (= ECV; triples built backwards from a chosen R), ECVINF (model refuses the key "infinity"), ECPK, ECPKN, ECSIG, ECSK, ECH (HashToInt), ECR (RecoverFrom)
+        ECPKL <bytes>                                   PublicKey.SetBytes on a buffer longer than the key: `n x y re-encoding`
+        ECSGN <hash> <sk> <entropy> <k> <msg> <oin> <oout>   Sign (crypto/rand yields <entropy>, which makes the nonce <k>) then Verify: `signature-bytes verdict`
         INV <q> <a>                                     the Euclid inverse of the model, and whether it equals the Fermat one
-`<hash>` ∈ sha256 | mimc | nil; for mimc `<oin>` are the recorded writes (`:`-separated) and `<oout>` the recorded sum.
+`<hash>` ∈ sha256 | mimc | nil | const (a hash.Hash whose Sum is always `<oout>`); for mimc `<oin>` are the recorded writes (`:`-separated) and `<oout>` the recorded sum.
 -/
 namespace GV.SigOps
 open GV GV.Sig GV.Alg
@@ -25,6 +30,7 @@ def mkHash (hname : String) (bs q : Nat) (oin oout : String) : Option (Option Ha
   if hname == "sha256" then some (some sha256Fn)
   else if hname == "nil" then some none
   else if hname == "mimc" then some (some (mimcOracle bs q (parseWrites oin) (parseBytes oout)))
+  else if hname == "const" then some (some (fun _ => .ok (parseBytes oout)))   -- a hash.Hash whose Sum is the constant `oout`
   else none
 
 def verdict : Except Err Bool → String
@@ -83,6 +89,24 @@ def handleEd (P : EdParams) (op : String) (a : List String) : String :=
     match P.skParse sq (parseBytes b) with
     | .error e => e.str
     | .ok (_, A, sc, rs) => hexN [A.1, A.2] ++ " " ++ bytesToHex (P.compress A ++ natToBE P.size sc ++ rs)
+  | "EDPKL", [b] =>
+    match P.pkParse sq (parseBytes b) with
+    | .error e => e.str
+    | .ok (n, A) => toString n ++ " " ++ hexN [A.1, A.2] ++ " " ++ bytesToHex (P.compress A)
+  | "EDSKL", [b] =>
+    match P.skParse sq (parseBytes b) with
+    | .error e => e.str
+    | .ok (n, A, sc, rs) => toString n ++ " " ++ hexN [A.1, A.2] ++ " " ++ bytesToHex (P.compress A ++ natToBE P.size sc ++ rs)
+  | "EDSGN", [h, sk, r, msg, oin, oout] =>
+    match mkHash h P.size P.q oin oout with
+    | none => "bad-op"
+    | some H =>
+      match P.skParse sq (parseBytes sk) with
+      | .error e => e.str
+      | .ok (_, A, sc, _) =>
+        match P.sign P.smulFast H A sc (parseHexD r) (parseBytes msg) with
+        | .error e => e.str
+        | .ok sig => bytesToHex sig ++ " " ++ verdict (P.verify P.smulFast sq H A sig (parseBytes msg))
   | "EDSM", [k, x, y] =>
     let X := (parseHexD x, parseHexD y); let k := parseHexD k
     let R := P.smul k X
@@ -125,6 +149,22 @@ def handleEc (P : ECParams) (op : String) (a : List String) : String :=
     match P.pkConsumed P.smulFast (parseBytes b) with
     | .error e => e.str
     | .ok n => toString n
+  | "ECPKL", [b] =>
+    match P.pubParse P.smulFast (parseBytes b) with
+    | .error e => e.str
+    | .ok Q => toString P.pkSize ++ " " ++ showAff Q ++ " " ++ bytesToHex (P.pkBytes Q)
+  | "ECSGN", [h, sk, _entropy, k, msg, oin, oout] =>
+    match mkHash h P.mimcSize P.mimcQ oin oout with
+    | none => "bad-op"
+    | some H =>
+      match P.skParse P.smulFast (parseBytes sk) with
+      | .error e => e.str
+      | .ok (_, Q, d) =>
+        match P.sign P.smulFast H d (parseHexD k) (parseBytes msg) with
+        | .error e => e.str
+        | .ok sig =>
+          bytesToHex sig ++ " " ++
+            (if Q.isNone then "err:pkinfinity" else verdict (P.verify P.smulFast H Q sig (parseBytes msg)))
   | "ECSIG", [b] =>
     match P.sigParse (parseBytes b) with
     | .error e => e.str
